@@ -331,6 +331,10 @@ func init() {
 			obls, _ := templateObls(w, func(n string) bool { return strings.HasSuffix(n, "/size-nonneg") })
 			res.Obls = append(res.Obls, obls...)
 			res.Functions = append(res.Functions, "compiler.compiler.ArrayNode", "compiler.compiler.MapNode")
+			// a literal range is precomputed (and so never meets the budget) only up to 1e6 elements, and is what makeRange would build
+			tmp := &CheckResult{}
+			genConstRange(w, tmp)
+			res.Obls = append(res.Obls, selectObls(tmp.Obls, `^optimizer\.constRange/post:(content|skips-only-large)$`, `^optimizer\.constRange\.Exit/loop:`)...)
 		})
 	pureExtra := func(w *World, res *CheckResult) {
 		res.Obls = append(res.Obls, genPure(w)...)
